@@ -245,8 +245,10 @@ func genMixed(r *vlib.Rand, id int) Hist {
 					o = Op{Kind: opASAP, Task: tgt}
 				case x < 92:
 					o = Op{Kind: opSchedule, Task: tgt, OffMs: vlib.Pick(r, -50, 10, 20, 100)}
-				case x < 96:
+				case x < 94:
 					o = Op{Kind: opMaxDelay, Task: tgt, DelayMs: vlib.Pick(r, 20, 50, 0)}
+				case x < 97:
+					o = Op{Kind: opUnsched, Task: tgt}
 				default:
 					o = Op{Kind: opCancel, Task: tgt}
 				}
